@@ -43,7 +43,10 @@ PROPS = {
                    "RegretBound::regret_bound is the IEEE max of the two per-player bounds (loop-free Kani over all f64 pairs = proof).",
         level_note="The inequality bound >= true regret is Zinkevich et al. 2007 (trusted mathematics, not mechanised). The per-player "
                    "sum over infosets inside the solver loops is abstracted (R6) in the C09 slices. Counterfactual weighting: see C08.",
-        verus=[U("c08_advance_order", ["C02.V.advance.reports_bound"])],
+        verus=[U("c08_advance_order", ["C02.V.advance.reports_bound"]),
+               U("c08_recurse_player", ["C08.V.recurse_player.update (counterfactual weight: opponent reach x chance reach, sign for player two)"]),
+               U("c08_chance_reach", ["C08.V.chance_reach.product_along_path"]),
+               U("c06_threshold_player_step", ["C06.V.thread_threshold.frontier_reach"])],
         kani_functions=["src/solve/data.rs :: impl RegretParams / fn cum_regret", "src/lib.rs :: impl RegretBound / fn new, player_regret_bound, regret_bound"],
         trusted_base=["CFR regret theorem (Zinkevich et al. 2007, Thm 3-4)"],
         not_decided=["the inequality itself", "sum of per-infoset bounds per player (iterator chain inside the solver loops)"],
@@ -58,7 +61,8 @@ PROPS = {
         level_note="Leaf totality only: absence of panics in the tree recursion, hangs, deadlock and lock poisoning are not decided; "
                    "solve()'s thread-count error logic is read, not proved (Kani ICE on Game::solve, Verus lacks NonZero/rayon specs). exp is a "
                    "sound interval model in the softmax harness.",
-        verus=[U("c05_avg_strat", ["C05.V.avg_strat.sums_to_one", "C05.V.avg_strat.normalised", "C05.V.avg_strat.uniform_when_empty"])],
+        verus=[U("c05_avg_strat", ["C05.V.avg_strat.sums_to_one", "C05.V.avg_strat.normalised", "C05.V.avg_strat.uniform_when_empty"]),
+               U("c08_advance_order", ["C02.V.advance.reports_bound (the bound is computed with the caller's iteration number >= 1, hence a number)"])],
         kani_functions=["src/solve/data.rs :: fn avg_strat", "src/solve/data.rs :: impl RegretParams / fn regret_match", "src/solve/data.rs :: impl RegretInfoset / fn new"],
         trusted_base=[FLOAT_IDEAL, "interval model of f64::exp"],
         not_decided=["whole-run totality on arbitrary trees, hangs, deadlock", "Game::solve thread-count dispatch"],
@@ -71,9 +75,14 @@ PROPS = {
                    "site and no stale cached payoff can cut the traversal.",
         level_note="Schedule independence is NOT decided (no thread reasoning in Verus/Kani). thread_threshold, par_drain/par_extend are "
                    "assumed contracts restating the anchor / rayon documentation.",
-        verus=[U("c06_generic_multi_fresh", ["C06.V.solve_generic_multi.workspace_fresh"])],
+        verus=[U("c06_generic_multi_fresh", ["C06.V.solve_generic_multi.workspace_fresh"]),
+               U("c06_threshold_player_step", ["C06.V.thread_threshold.frontier_reach"]),
+               U("c08_chance_reach", ["C08.V.chance_reach.product_along_path (recurse_multi passes the same reaches as recurse_single)"]),
+               U("c08_advance_order", ["C08.V.advance.order: MutexRegretInfoset::advance obeys the same contract as the single-threaded RegretInfoset::advance"])],
+        kani_functions=["src/solve/vanilla.rs :: fn thread_threshold (thorough tier only)"],
         trusted_base=["assumed contracts on thread_threshold and rayon (prelude/workspace.rs)"],
-        not_decided=["races between worker tasks, atomic add ordering, equality up to summation order"],
+        not_decided=["races between worker tasks, atomic add ordering, equality up to summation order",
+                     "thread_threshold's reach products (a bounded Kani harness exists in the thorough tier only)"],
     ),
     "C07": dict(
         level="proof",
@@ -100,16 +109,18 @@ PROPS = {
                    "caller's iteration number (t-1 for the first external player's average); average-strategy accumulation and the "
                    "external regret update are the documented sums; presets and the constructor are loop-free Kani proofs; regret_match "
                    "branches are bounded Kani harnesses.",
-        level_note="Equality of whole trajectories with a reference solver is NOT decided; recurse_player's counterfactual weighting and "
-                   "recurse_regret's sign flip are read, not proved (generic Add items / RefCell-Mutex-generic recursion).",
+        level_note="Equality of whole trajectories with a reference solver is NOT decided; recurse_player is proved at its &mut [f64] "
+                   "instance (TYPE-SUBST) only; recurse_single/multi/regret (RefCell/Mutex-generic recursion) are read, not proved.",
         verus=[U("c08_discount", ["C08.V.gen_discount.value", "C08.V.discount_cum_regret", "C08.V.discount_average_strat.ratio"]),
                U("c08_advance_order", ["C08.V.advance.match_before_discount", "C08.V.advance.discount_regrets", "C08.V.advance.discount_average"]),
                U("c08_update_cum_strat", ["C08.V.update_cum_strat.vanilla", "C08.V.update_cum_strat.external"]),
-               U("c08_external_recurse", ["C08.V.external.recurse"])],
+               U("c08_external_recurse", ["C08.V.external.recurse"]),
+               U("c08_recurse_player", ["C08.V.recurse_player.update"]),
+               U("c08_chance_reach", ["C08.V.chance_reach.product_along_path"])],
         kani_functions=["src/solve/data.rs :: impl RegretParams / fn new, vanilla, lcfr, cfr_plus, dcfr, dcfr_prune, gen_discount, regret_match, discount_cum_regret, discount_average_strat",
                         "src/solve/data.rs :: impl Default for RegretParams"],
         trusted_base=[FLOAT_IDEAL, "real-analysis axioms for exp/ln, logaddexp documentation"],
-        not_decided=["recurse_player (counterfactual reach and player-two sign)", "recurse_regret sign flip", "whole-trajectory equality"],
+        not_decided=["recurse_player at its AtomicF64 instance (multi-threaded path)", "recurse_single / recurse_multi / recurse_regret glue (RefCell / Mutex-generic recursion): chance reach products, payoff sign flip of the second external pass", "whole-trajectory equality"],
     ),
     "C09": dict(
         level="proof",
@@ -176,15 +187,17 @@ PROPS = {
         not_decided=["idempotence and sum-to-one up to rounding at the bit level"],
     ),
     "C14": dict(
-        level="model_checking",
-        technique="Kani harnesses on the real strat_into_box_slow against a reference model written from the property (bounded input shapes, all f64 weights)",
-        level_text="Bounded, bit-precise: for two input shapes (2 entries x 1 pair, 1 entry x 2 pairs; names from a 6-value "
-                   "alphabet; every f64 weight) the scan-based import succeeds exactly when all rules hold, an error carries the kind of "
-                   "a violated rule, zero/unspecified/overridden-by-zero actions end exactly 0, last write wins for the support.",
+        level="proof",
+        technique="Verus contract on the normalisation step of BOTH import paths (extracted each run) + Kani harnesses on the real strat_into_box_slow against a reference model (bounded input shapes, all f64 weights)",
+        level_text="Verus (any infoset size, idealised reals), for the normalisation loop body of strat_into_box AND strat_into_box_slow: "
+                   "a zero total gives UninitializedInfoset and writes nothing, otherwise every action gets weight / total and the infoset "
+                   "sums to one. Kani (bounded, bit-precise; 2 entries x 1 pair with concrete name patterns, every f64 weight): the scan-based "
+                   "import succeeds exactly when all rules hold, an error carries the kind of a violated rule, zero / unspecified / "
+                   "overridden-by-zero actions end exactly 0 (last write wins).",
         level_note="Only the scan-based path (from_named_eq). The hash-based twin strat_into_box and hence 'both paths agree' are NOT "
                    "decided (nested HashMap: Kani infeasible, Verus rejects the iterator chains). Normalised values beyond the support are "
                    "not compared (float division miters exhaust CBMC). Legal weights above 1e300 excluded (total overflow).",
-        verus=[],
+        verus=[U("c14_normalise", ["C14.V.normalise.weight_over_total", "C14.V.normalise.uninitialized"]), U("split_by", ["V.SplitsByMut.next.partition"])],
         kani_functions=["src/lib.rs :: impl Game / fn strat_into_box_slow"],
         not_decided=["strat_into_box (hash path) and agreement of the two paths", "exact normalised values"],
     ),
